@@ -105,6 +105,13 @@ OpOk ==
               /\ aged' = IF hasSnap THEN DOMAIN des ELSE {}
               /\ After2(m', "STABLE")
          ELSE Same /\ Breach(<<"insert of a present key", Ev.k>>)
+    [] Ev.op = "bulk" ->        \* scale runs: insert of every key lo, lo + step, .. <= hi, observed as one call
+         IF R!CanBulk(Ev.lo, Ev.hi, Ev.step)
+         THEN /\ m' = R!BulkMap(Ev.lo, Ev.hi, Ev.step, Ev.vm, Ev.va)
+              /\ des' = IF hasSnap THEN des ELSE R!Empty
+              /\ aged' = IF hasSnap THEN DOMAIN des ELSE {}
+              /\ After2(m', "STABLE")
+         ELSE Same /\ Breach(<<"bulk insert of present keys", Ev.lo, Ev.hi, Ev.step>>)
     [] Ev.op = "del" ->
          /\ m' = R!Without(m, Ev.k) /\ des' = R!Empty /\ aged' = {}
          /\ After(m')
@@ -187,7 +194,7 @@ ModelNext ==
 SameArena(A, B) == A.root = B.root /\ A.ucap = B.ucap /\ Len(A.nd) = Len(B.nd) /\ Len(A.free) = Len(B.free)
                    /\ (\A i \in 1..Len(A.nd) : A.nd[i] = B.nd[i]) /\ (\A i \in 1..Len(A.free) : A.free[i] = B.free[i])
 DriftCheck ==
-  hasSnap /\ Has("snap") /\ ~stale /\ Ev.out = "ok" /\ WellFormed(T) /\ PoolOK(T)
+  hasSnap /\ Has("snap") /\ ~stale /\ Ev.out = "ok" /\ Ev.op # "bulk" /\ WellFormed(T) /\ PoolOK(T)
      => Drift(SameArena(ModelNext, T'), Ev.op)
 
 StepOp ==
